@@ -31,6 +31,7 @@ struct SrcBuilder<'a> {
     reduce_fn_prefix: String,
     action_table_name: String,
     goto_table_name: String,
+    parse_src_type_param_name: String,
 
     node_to_terminal_method_names: HashMap<DollarlessTerminalName, String>,
 }
@@ -53,6 +54,7 @@ impl SrcBuilder<'_> {
         let reduce_fn_prefix = create_unique_identifier("reduce", used_identifiers);
         let action_table_name = create_unique_identifier("ACTION_TABLE", used_identifiers);
         let goto_table_name = create_unique_identifier("GOTO_TABLE", used_identifiers);
+        let parse_src_type_param_name = create_unique_identifier("S", used_identifiers);
 
         let node_to_terminal_method_names: HashMap<DollarlessTerminalName, String> = file
             .terminal_enum
@@ -84,6 +86,7 @@ impl SrcBuilder<'_> {
             reduce_fn_prefix,
             action_table_name,
             goto_table_name,
+            parse_src_type_param_name,
             node_to_terminal_method_names,
         }
     }
@@ -109,6 +112,7 @@ impl SrcBuilder<'_> {
             reduce_fn_prefix: _,
             action_table_name,
             goto_table_name,
+            parse_src_type_param_name,
             ..
         } = self;
 
@@ -168,8 +172,8 @@ impl SrcBuilder<'_> {
 
 /// If the parser encounters an unexpected token `t`, it will return `Err(Some(t))`.
 /// If the parser encounters an unexpected end of input, it will return `Err(None)`.
-pub fn parse<S>(src: S) -> Result<{start_type_name}, Option<{terminal_enum_name}>>
-where S: IntoIterator<Item = {terminal_enum_name}> {{
+pub fn parse<{parse_src_type_param_name}>(src: {parse_src_type_param_name}) -> Result<{start_type_name}, Option<{terminal_enum_name}>>
+where {parse_src_type_param_name}: IntoIterator<Item = {terminal_enum_name}> {{
     let mut quasiterminals = src.into_iter()
         .map({quasiterminal_enum_name}::Terminal)
         .chain(std::iter::once({quasiterminal_enum_name}::Eof))
